@@ -264,14 +264,36 @@ def _gen(prop, base_seed, tier, i):
     return case
 
 
+class RunTimeout(BaseException):
+    pass
+
+
+def _alarm(signum, frame):
+    raise RunTimeout()
+
+
+RUN_TIMEOUT_S = 120
+
+
 def _batch(prop, base_seed, tier, start, count, deadline, known):
+    import signal
+
+    signal.signal(signal.SIGALRM, _alarm)
     agg = {"start": start, "runs": 0, "stats": {}, "faults": {}, "distinct": {}, "raw": None, "samples": [], "error": None, "known": {}}
     for i in range(start, start + count):
         if time.time() > deadline:
             break
         try:
-            case = _gen(prop, base_seed, tier, i)
-            res = prop.run_case(case)
+            signal.setitimer(signal.ITIMER_REAL, RUN_TIMEOUT_S)
+            try:
+                case = _gen(prop, base_seed, tier, i)
+                res = prop.run_case(case)
+            finally:
+                signal.setitimer(signal.ITIMER_REAL, 0)
+        except RunTimeout:
+            # a single simulated run that does not finish is cut (a budget, not a verdict) and reported in the evidence
+            agg["stats"]["runs_cut_at_wall_clock_limit"] = agg["stats"].get("runs_cut_at_wall_clock_limit", 0) + 1
+            continue
         except Exception:
             agg["error"] = {"run_index": i, "trace": traceback.format_exc()}
             break
